@@ -21,7 +21,7 @@ theorem earlyOk_get {base p : Nat} : ∀ (l : List Nat) (k : Nat), earlyOk base 
       rw [e] at this; exact this
 
 theorem promptOk_get {base p : Nat} {vs : List Nat} : ∀ (l : List Nat) (k : Nat), promptOk base p vs k l = true →
-    ∀ (j : Nat) (h : j < l.length), ∀ c ∈ vs, c < l[j] → c < base + (k + j + 1) * p := by
+    ∀ (j : Nat) (h : j < l.length), ∀ c ∈ vs, c < l[j] → c < ceilMs (base + (k + j + 1) * p) := by
   intro l
   induction l with
   | nil => intro k _ j h; simp at h
@@ -73,7 +73,7 @@ theorem oneShot_once_never_early' {s : State} (h : Inv s) (τ : Timer) (hτ : τ
 
 theorem sendAfter_fires' {s : State} (h : Inv s) (i : Nat) (τ : Timer) (a : Nat)
     (hi : s.timers[i]? = some τ) (hk : τ.kind = .sendAfter) (hp : τ.res = .pending)
-    (ha : τ.armed = some a) (hd : a + τ.period ≤ s.now) :
+    (ha : τ.armed = some a) (hd : wheelDeadline a τ.period ≤ s.now) :
     ∃ τ', (step s (.fire i)).timers[i]? = some τ' ∧ τ'.sentAt = [s.now] ∧
       (s.target.accepts = true → τ'.res = .ok ∧ (step s (.fire i)).target.mbox = s.target.mbox ++ [(i, 1)]) ∧
       (s.target.accepts = false → τ'.res = .err ∧ (step s (.fire i)).target.mbox = s.target.mbox) := by
@@ -154,36 +154,39 @@ theorem abort_prevents' (s : State) (i : Nat) (τ : Timer) (hi : s.timers[i]? = 
 theorem closed_form' {s : State} (h : BInv s) (τ : Timer) (hτ : τ ∈ s.timers)
     (k : Nat) (hk : k < τ.sentAt.length) :
     τ.created + (k + 1) * τ.period ≤ τ.sentAt[k] ∧
-    (∀ c ∈ s.visits, τ.created + (k + 1) * τ.period ≤ c → τ.sentAt[k] ≤ c) ∧
-    (τ.created + (k + 1) * τ.period ∈ s.visits → τ.sentAt[k] = τ.created + (k + 1) * τ.period) := by
+    (∀ c ∈ s.visits, wheelDeadline τ.created ((k + 1) * τ.period) ≤ c → τ.sentAt[k] ≤ c) ∧
+    (τ.created + (k + 1) * τ.period ∈ s.visits → (τ.created + (k + 1) * τ.period) % 1000 = 0 →
+      τ.sentAt[k] = τ.created + (k + 1) * τ.period) := by
   have h1 := never_early' h.inv τ hτ k hk
-  have h2 : ∀ c ∈ s.visits, τ.created + (k + 1) * τ.period ≤ c → τ.sentAt[k] ≤ c := by
+  have h2 : ∀ c ∈ s.visits, wheelDeadline τ.created ((k + 1) * τ.period) ≤ c → τ.sentAt[k] ≤ c := by
     intro c hc hle
     rcases Nat.lt_or_ge c τ.sentAt[k] with hlt | hge
     · have := promptOk_get _ _ (h.minv.mt τ hτ).prompt k hk c hc hlt
       simp only [Nat.zero_add] at this
+      simp only [wheelDeadline] at hle
       omega
     · exact hge
-  exact ⟨h1, h2, fun hm => Nat.le_antisymm (h2 _ hm (Nat.le_refl _)) h1⟩
+  refine ⟨h1, h2, fun hm hz => Nat.le_antisymm (h2 _ hm ?_) h1⟩
+  simp only [wheelDeadline, ceilMs]; omega
 
 theorem interval_dies' {s : State} (h : BInv s) (τ : Timer) (hτ : τ ∈ s.timers)
     (hk : τ.kind = .interval) (tc : Nat) (hc : s.target.closedAt = some tc) :
-    (tc + τ.period ≤ s.now → τ.res ≠ .pending) ∧
+    (ceilMs (tc + τ.period) ≤ s.now → ceilMs τ.created ≤ s.now → τ.res ≠ .pending) ∧
     (τ.sentAt.filter (fun t => decide (tc < t))).length ≤ 1 := by
   refine ⟨?_, ((h.inv.tinv τ hτ).closed tc hc (by simp [hk, Kind.sends])).2⟩
-  intro hle hp
+  intro hle hle2 hp
   have := h.okPrompt
   unfold Timers.okPrompt at this
   rw [List.all_eq_true] at this
   have := this τ hτ
   unfold timerPromptOk diesOk at this
   simp only [hc, hk, hp, beq_self_eq_true, Bool.and_self, Bool.not_true, Bool.false_or, Bool.and_eq_true,
-    decide_eq_true_eq] at this
+    Bool.or_eq_true, decide_eq_true_eq] at this
   omega
 
 theorem exit_reason' {s : State} (h : Inv s) (r : Reason) (te : Nat) (he : s.target.exit = some (r, te)) :
-    (∀ p, r = .exitAfter p → ∃ τ ∈ s.timers, τ.kind = .exitAfter ∧ τ.period = p ∧
-        ∃ t ∈ τ.sentAt, τ.created + p ≤ t ∧ t ≤ te) ∧
+    (∀ p, r = .exitAfter p → ∃ τ ∈ s.timers, τ.kind = .exitAfter ∧ asMillis τ.period = p ∧
+        ∃ t ∈ τ.sentAt, τ.created + τ.period ≤ t ∧ t ≤ te) ∧
     (r = .killed → s.target.manualKill = true ∨
         ∃ τ ∈ s.timers, τ.kind = .killAfter ∧ ∃ t ∈ τ.sentAt, τ.created + τ.period ≤ t ∧ t ≤ te) ∧
     (r = .manual → s.target.manualStop = true) := by
@@ -193,8 +196,7 @@ theorem exit_reason' {s : State} (h : Inv s) (r : Reason) (te : Nat) (he : s.tar
     simp only [reasonOk, List.any_eq_true, Bool.and_eq_true, beq_iff_eq, decide_eq_true_eq] at hr
     obtain ⟨τ, hτ, ⟨hk, hper⟩, t, ht, hle⟩ := hr
     refine ⟨τ, hτ, hk, hper, t, ht, ?_, hle⟩
-    have := (oneShot_once_never_early' h τ hτ (by simp [hk, Kind.oneShot])).2 t ht
-    rw [hper] at this; exact this
+    exact (oneShot_once_never_early' h τ hτ (by simp [hk, Kind.oneShot])).2 t ht
   · intro e; subst e
     simp only [reasonOk, Bool.or_eq_true, List.any_eq_true, Bool.and_eq_true, beq_iff_eq,
       decide_eq_true_eq] at hr
